@@ -511,7 +511,30 @@ def run_pytest_workload(mod, tier, seed, files, tmpd, timeout):
         return json.load(f), ""
 
 
+def acquire_run_slot(nslots=3):
+    """At most `nslots` check runs at a time on this machine (several agents share it);
+    waiting happens before the watchdog clock starts.  VMON_NO_SLOTS=1 disables."""
+    if os.environ.get("VMON_NO_SLOTS") == "1":
+        return None
+    import fcntl
+
+    d = os.path.join(tempfile.gettempdir(), "vmon-slots")
+    os.makedirs(d, exist_ok=True)
+    t0 = time.time()
+    while time.time() - t0 < 6 * 3600:
+        for i in range(nslots):
+            f = open(os.path.join(d, "slot%d" % i), "w")
+            try:
+                fcntl.flock(f, fcntl.LOCK_EX | fcntl.LOCK_NB)
+                return f
+            except OSError:
+                f.close()
+        time.sleep(2.0)
+    return None
+
+
 def run_check(pid, tier, seed, ncases=None, nshards=None):
+    _slot = acquire_run_slot()
     mod = load_mod(pid)
     budget = mod.BUDGET[tier]
     nshards = nshards or budget.get("shards", 1)
